@@ -159,6 +159,16 @@ def run(chk):
     msg_lines += ['ssl2bigrec %d' % n for n in (40, 255, 256, 16383, 16384, 16385, 21845, 32766, 32767)]
     from harness import c08
     msg_lines += [l for l in c08.gen_lines(rng, 'quick') if l.startswith('rrsigenc ')]    # built from datetimes in zones other than UTC
+    # client hellos constructed from generated field values (signalling suites with and without a renegotiation_info extension,
+    # extensions of every kind): the encoder command composes, parses back and compares every field
+    from harness import tlsgen
+    for sc in ([0x00ff], [0x5600], [0x00ff, 0x5600], []):
+        for _ in range(6 if chk.tier == 'quick' else 120):
+            msg_lines.append(tlsgen.client_hello(rng, impl, scsv=sc)[0])
+            l2 = tlsgen.client_hello(rng, impl, scsv=sc)[0].split(' ')
+            if '65281:' not in l2[6]:
+                l2[6] = ('65281:00' if l2[6] == '-' else l2[6] + ';65281:00')      # and with an empty renegotiation_info for certain
+            msg_lines.append(' '.join(l2))
     # cookies constructed from a name and a value in the cookie-octet alphabet of RFC 6265 4.1.1 ("=" included, anywhere)
     for nv in ('sid abc', 'sid a=b', 'sid abc=', 'sid abc==', 'sid =abc', 'sid ==', 'a %s' % ''.join(rng.choice('abc=01') for _ in range(rng.randint(1, 6)))):
         msg_lines.append('cookieenc %s %s' % tuple(x.encode('ascii').hex() for x in nv.split(' ')))
